@@ -26,6 +26,7 @@ import (
 	"github.com/youzan/ZanRedisDB/server"
 	"github.com/youzan/ZanRedisDB/slow"
 	"github.com/youzan/ZanRedisDB/transport/rafthttp"
+	"github.com/youzan/ZanRedisDB/wal"
 )
 
 // ---- logging ---------------------------------------------------------------
@@ -40,6 +41,7 @@ func (f *fileLogger) OutputErr(d int, s string) error     { f.l.Output(d+1, "ERR
 func (f *fileLogger) OutputWarning(d int, s string) error { f.l.Output(d+1, "WARN: "+s); return nil }
 
 var logOnce sync.Once
+var walOnce sync.Once
 
 // RouteLogs sends the loggers of all repo packages to one file. Level info for
 // the server and node packages (the recovered-panic lines of the connection
@@ -151,6 +153,10 @@ func StartHost(conf HostConf) (*Host, error) {
 	if err := os.MkdirAll(conf.Dir, 0755); err != nil {
 		return nil, err
 	}
+	// Every raft group preallocates two WAL segments of wal.SegmentSizeBytes
+	// (64 MB by default): with dozens of single-replica groups per process that
+	// alone is gigabytes of scratch. The segment size is the package's own knob.
+	walOnce.Do(func() { wal.SegmentSizeBytes = 1 << 20 })
 	ports := conf.Ports
 	if len(ports) < 5 {
 		var err error
@@ -173,8 +179,14 @@ func StartHost(conf HostConf) (*Host, error) {
 		BroadcastAddr: "127.0.0.1",
 		TickMs:        100,
 		ElectionTick:  5,
+		KeepBackup:    1,
+		KeepWAL:       2,
 	}
 	kvOpts.RocksDBOpts.EngineType = conf.Engine
+	// dozens of stores per process: small memtables and caches (64 MB write
+	// buffers would preallocate ~70 MB of disk and 64 MB of RAM per partition)
+	kvOpts.RocksDBOpts.WriteBufferSize = 4 << 20
+	kvOpts.RocksDBOpts.BlockCache = 16 << 20
 	srv, err := server.NewServer(kvOpts)
 	if err != nil {
 		return nil, err
